@@ -183,8 +183,19 @@ func exec(rw bool) func(script []string, opt comp.Options) comp.Result {
 				held[ms] = held[ms][:n-1]
 				lmu.Unlock()
 				id := log.Inv("release %d", t)
-				l.Unlock()
-				log.Ret(id, "release")
+				func() {
+					// Unlock panics only if the locker lost track of its holders (never on correct
+					// code: the harness unlocks only what it locked); log it as a result the model
+					// does not know, so that the history is rejected instead of crashing the run
+					defer func() {
+						if r := recover(); r != nil {
+							log.Ret(id, "release panic")
+							tags.Add("panic")
+						}
+					}()
+					l.Unlock()
+					log.Ret(id, "release")
+				}()
 			case "release", "arelease":
 				i, _ := strconv.Atoi(f[1])
 				if i >= len(calls) {
@@ -242,7 +253,10 @@ func exec(rw bool) func(script []string, opt comp.Options) comp.Result {
 				lmu.Lock()
 				for ms, ids := range held {
 					for range ids {
-						lockers[ms].Unlock()
+						func() {
+							defer func() { _ = recover() }()
+							lockers[ms].Unlock()
+						}()
 					}
 					held[ms] = nil
 				}
@@ -279,6 +293,47 @@ func gen(rw bool) func(rng *rand.Rand, tier string) []string {
 		}
 		var out []string
 		nlocks := 0
+		if rw && rng.Intn(4) == 0 {
+			// template: holders, a waiting writer, readers/writers queued behind it, then the holders
+			// release and the writer is cancelled at (almost) the same time — the hand-over windows
+			// between a release's broadcast, the waiters' re-checks and the give-up critical section
+			nh, nq := 1+rng.Intn(2), 1+rng.Intn(2)
+			for i := 0; i < nh; i++ {
+				out = append(out, "lock r")
+			}
+			out = append(out, "settle", "lock w", "settle")
+			w := nh
+			for i := 0; i < nq; i++ {
+				if rng.Intn(4) == 0 {
+					out = append(out, "lock w")
+				} else {
+					out = append(out, "lock r")
+				}
+			}
+			out = append(out, "settle")
+			var acts []string
+			for i := 0; i < nh; i++ {
+				if rng.Intn(2) == 0 {
+					acts = append(acts, fmt.Sprintf("arelease %d", i))
+				} else {
+					acts = append(acts, fmt.Sprintf("release %d", i))
+				}
+			}
+			acts = append(acts, fmt.Sprintf("cancel %d", w))
+			rng.Shuffle(len(acts), func(i, j int) { acts[i], acts[j] = acts[j], acts[i] })
+			for _, a := range acts {
+				out = append(out, a)
+				if rng.Intn(5) == 0 {
+					out = append(out, "pause")
+				}
+			}
+			out = append(out, "quiesce")
+			for i := 0; i < nh+1+nq; i++ {
+				out = append(out, fmt.Sprintf("release %d", i), "settle")
+			}
+			out = append(out, "quiesce")
+			return out
+		}
 		m := func() string {
 			if !rw || rng.Intn(2) == 0 {
 				return "w"
@@ -340,6 +395,10 @@ func init() {
 			// TryLock racing the critical sections of other calls
 			{"lock r", "atrylock w", "atrylock w", "arelease 0", "atrylock r", "atrylock w", "settle", "atrylock w", "lock r", "atrylock w", "quiesce"},
 			{"atrylock w", "atrylock w", "atrylock r", "atrylock w", "atrylock r", "settle", "atrylock r", "atrylock w", "lock w", "atrylock w", "quiesce"},
+			// last holder releases while the waiting writer gives up and a reader is queued behind it
+			{"lock r", "settle", "lock w", "settle", "lock r", "settle", "arelease 0", "cancel 1", "quiesce", "release 2", "quiesce"},
+			{"lock r", "settle", "lock w", "settle", "lock r", "settle", "release 0", "cancel 1", "quiesce", "release 2", "quiesce"},
+			{"lock r", "lock r", "settle", "lock w", "settle", "lock r", "lock r", "settle", "arelease 0", "arelease 1", "cancel 2", "quiesce", "release 3", "release 4", "quiesce"},
 			// lockers: shared RLocker/Locker, unlock order, hand-over to a plain Lock
 			{"llock r", "llock r", "settle", "llock w", "settle", "lunlock r", "quiesce", "lunlock r", "quiesce", "lock r", "settle", "lunlock w", "quiesce", "release 3", "quiesce"},
 			// reader crowd, then writer, trylocks in between
